@@ -3,4 +3,4 @@
 export GOFLAGS=-mod=mod GOPROXY=off GOSUMDB=off GOTOOLCHAIN=local
 ov=$(mktemp); trap 'rm -f $ov' EXIT
 echo "{\"Replace\":{\"${REPO:-/repo}/pkg/adaptation/zz_f3_test.go\":\"/verif/findings/f3_lone_removal_not_forwarded_test.go\"}}" > $ov
-cd ${REPO:-/repo} && go test -overlay $ov -vet=off -count=1 -timeout 60s -run TestF3LoneRemovalIsForwarded ./pkg/adaptation/
+cd ${REPO:-/repo} && go test -overlay $ov -vet=off -count=1 -timeout 60s -run "${F3TEST:-TestF3LoneRemovalIsForwarded}\$" ./pkg/adaptation/
